@@ -85,6 +85,90 @@ theorem scanStr_cons (q c : Char) (r : List Char) :
        else (scanStr q r).map (fun s => c :: s)) := by
   cases r <;> simp [scanStr]
 
+/-- the contents the string rule with quote `q` accepts: characters other than the quote and the
+backslash, and pairs of a backslash and any character but a newline -/
+def wfQ (q : Char) : List Char → Bool
+  | [] => true
+  | c :: r =>
+      if c = q then false
+      else if c = '\\' then
+        match r with
+        | [] => false
+        | e :: r' => e != '\n' && wfQ q r'
+      else wfQ q r
+
+theorem wfQ_cons (q c : Char) (r : List Char) :
+    wfQ q (c :: r) =
+      (if c = q then false
+       else if c = '\\' then
+         match r with
+         | [] => false
+         | e :: r' => e != '\n' && wfQ q r'
+       else wfQ q r) := by
+  cases r <;> simp [wfQ]
+
+/-- what `scanStr` returns is a well-formed content followed in the text by the closing quote -/
+theorem scanStr_spec (q : Char) : ∀ (l c : List Char), scanStr q l = some c →
+    wfQ q c = true ∧ ∃ tail, l = c ++ q :: tail
+  | [], c, h => by simp [scanStr] at h
+  | [x], c, h => by
+      rw [scanStr_cons] at h
+      by_cases hx : x = q
+      · simp only [hx, if_true, Option.some.injEq] at h
+        subst h; subst hx
+        exact ⟨rfl, [], rfl⟩
+      · by_cases hb : x = '\\'
+        · subst hb; simp [hx] at h
+        · simp [hx, hb, scanStr] at h
+  | x :: e :: r', c, h => by
+      rw [scanStr_cons] at h
+      by_cases hx : x = q
+      · simp only [hx, if_true, Option.some.injEq] at h
+        subst h; subst hx
+        exact ⟨rfl, e :: r', rfl⟩
+      · by_cases hb : x = '\\'
+        · subst hb
+          simp only [hx, if_false, if_true] at h
+          by_cases he : e = '\n'
+          · simp [he] at h
+          · simp only [he, if_false, Option.map_eq_some_iff] at h
+            obtain ⟨c', hc', rfl⟩ := h
+            obtain ⟨hw, tail, ht⟩ := scanStr_spec q r' c' hc'
+            refine ⟨?_, tail, ?_⟩
+            · simp [wfQ_cons, hx, he, hw]
+            · simp [ht]
+        · simp only [hx, hb, if_false, Option.map_eq_some_iff] at h
+          obtain ⟨c', hc', rfl⟩ := h
+          obtain ⟨hw, tail, ht⟩ := scanStr_spec q (e :: r') c' hc'
+          refine ⟨?_, tail, ?_⟩
+          · simp [wfQ_cons, hx, hb, hw]
+          · simp [ht]
+
+/-- conversely a well-formed content followed by the quote is scanned exactly -/
+theorem scanStr_wf (q : Char) (tail : List Char) : ∀ (c : List Char), wfQ q c = true →
+    scanStr q (c ++ q :: tail) = some c
+  | [], _ => by simp [scanStr_cons]
+  | [x], h => by
+      rw [wfQ_cons] at h
+      by_cases hx : x = q
+      · simp [hx] at h
+      · by_cases hb : x = '\\'
+        · subst hb; simp [hx] at h
+        · simp [scanStr_cons, hx, hb]
+  | x :: e :: r', h => by
+      rw [wfQ_cons] at h
+      by_cases hx : x = q
+      · simp [hx] at h
+      · by_cases hb : x = '\\'
+        · subst hb
+          simp only [hx, if_false, if_true, Bool.and_eq_true, bne_iff_ne, ne_eq] at h
+          have ih := scanStr_wf q tail r' h.2
+          simp [scanStr_cons, hx, h.1, ih]
+        · simp only [hx, hb, if_false] at h
+          have ih := scanStr_wf q tail (e :: r') h
+          simp only [List.cons_append] at ih
+          simp [scanStr_cons, hx, hb, ih]
+
 /-! ### `lexGo` on a text that is one token -/
 
 theorem lexGo_skip_all (cfg : LexCfg) : ∀ (l : List Char) (k : Nat) (pw : Bool) (pos : Nat),
@@ -94,6 +178,14 @@ theorem lexGo_skip_all (cfg : LexCfg) : ∀ (l : List Char) (k : Nat) (pw : Bool
   | c :: r, k + 1, pw, pos, h => by
       simp only [lexGo]
       exact lexGo_skip_all cfg r k _ _ (by simp at h; omega)
+
+theorem lexAll_cons (cfg : LexCfg) {c : Char} {r : List Char} (hi : isIgnored c = false) :
+    lexAll cfg (c :: r) =
+      match ruleAt cfg false (c :: r) 0 with
+      | .tok t len => consTok t (lexGo cfg (len - 1) (cfg.chars.isWord c) r 1)
+      | .err e => .error e := by
+  simp only [lexAll, lexGo, hi, Bool.false_eq_true, if_false]
+  rfl
 
 /-- a text that the rules match as ONE token, whole -/
 theorem lexAll_single (cfg : LexCfg) {c : Char} {r : List Char} {t : Token}
@@ -107,5 +199,29 @@ theorem lexAll_error (cfg : LexCfg) {c : Char} {r : List Char} {e : LexErr}
     (hi : isIgnored c = false) (h : ruleAt cfg false (c :: r) 0 = .err e) :
     lexAll cfg (c :: r) = .error e := by
   simp only [lexAll, lexGo, hi, h, Bool.false_eq_true, if_false]
+
+/-- if nothing at all is produced, everything that was not skipped is an ignored character -/
+theorem lexGo_ok_nil (cfg : LexCfg) : ∀ (l : List Char) (k : Nat) (pw : Bool) (pos : Nat),
+    lexGo cfg k pw l pos = .ok [] → ∀ c ∈ l.drop k, isIgnored c = true
+  | [], _, _, _, _ => by simp
+  | c :: r, k + 1, pw, pos, h => by
+      simp only [lexGo] at h
+      simpa using lexGo_ok_nil cfg r k _ _ h
+  | c :: r, 0, pw, pos, h => by
+      simp only [lexGo] at h
+      by_cases hi : isIgnored c = true
+      · simp only [hi, if_true] at h
+        have := lexGo_ok_nil cfg r 0 _ _ h
+        intro d hd
+        simp only [List.drop_zero, List.mem_cons] at hd this
+        rcases hd with rfl | hd
+        · exact hi
+        · exact this d hd
+      · simp only [hi, if_false] at h
+        cases hr : ruleAt cfg pw (c :: r) pos with
+        | tok t len =>
+            simp only [hr] at h
+            cases hg : lexGo cfg (len - 1) (cfg.chars.isWord c) r (pos + 1) <;> simp [hg, consTok] at h
+        | err e => simp [hr] at h
 
 end Yaql.Lexer
